@@ -17,7 +17,7 @@ import (
 
 func init() {
 	props["C12"] = &prop{gen: genC12, eval: evalHelper, pure: true}
-	props["C14"] = &prop{gen: genC14, eval: evalHelper, timeout: 3 * time.Second, pure: true}
+	props["C14"] = &prop{gen: genC14, eval: evalHelper, timeout: 5 * time.Second, pure: true}
 }
 
 func descOf(e *helperEntry) string {
